@@ -168,9 +168,14 @@ class _NSIntegralState(_BaseNSIntegralState):
         self.logZ = np.logaddexp(self.logZ, Wt)
         # Update information estimate
         if np.isfinite(oldZ) and np.isfinite(self.logZ) and np.isfinite(logL):
+            prev_info = self.info[-1]
+            if len(self.info) == 1 and np.isfinite(self.logLs[-1]):
+                # No estimate was added for the first point (oldZ = -inf),
+                # its information is log(L / Z)
+                prev_info = self.logLs[-1] - oldZ
             info = (
                 np.exp(Wt - self.logZ) * logL
-                + np.exp(oldZ - self.logZ) * (self.info[-1] + oldZ)
+                + np.exp(oldZ - self.logZ) * (prev_info + oldZ)
                 - self.logZ
             )
             self.info.append(info)
